@@ -270,6 +270,19 @@ func (eng *Engine) solve(o *Obligation, timeoutMs int, all bool) {
 		o.Status, o.Solver, o.TimeMs = st, sv, ms
 		return
 	}
+	if !all && !eng.noRetry[o.Group] {
+		// No definitive answer. Before this is reported as a failed obligation,
+		// try once more with three times the budget: an obligation that needs a
+		// second or two on an idle machine must not fail because the machine is
+		// busy. (A genuinely failing obligation costs this extra time once.)
+		for k := range o.Answers {
+			delete(o.Answers, k)
+		}
+		if st, sv, ms := race(full, solvers, 3*timeoutMs, "", "/retry"); st != "" {
+			o.Status, o.Solver, o.TimeMs = st, sv, ms
+			return
+		}
+	}
 	o.Status = "unknown"
 	for _, s := range o.Answers {
 		if s == "error" {
